@@ -132,7 +132,10 @@ def plain(v):
 
 
 def history(rnd, steps):
-    handler, conn, obj, decl, model, init = build(rnd)
+    try:
+        handler, conn, obj, decl, model, init = build(rnd)
+    except Exception as e:
+        return 'declaring, initialising and exporting the object raised %s: %s' % (type(e).__name__, e)
     values = dict(init)
     what0 = 'declarations %r' % decl
     keys = list(model)
